@@ -251,7 +251,7 @@ def holdsK [Zero α] [DecidableEq α] (ids : List Id) (mds : Option (List Md)) (
 
 inductive Fn where
   | scale (k : Rat) | square | addOne | zeroBelow (k : Rat) | zeroOdd | fillSum | reverse
-  | bcastSum | dropLast | norm | pa | byIdMd
+  | bcastSum | dropLast | norm | pa | byIdMd | byMdKey (key : String) | byIdChar
   | table (rows : List (Id × List Rat × List Rat))
   deriving Repr
 
@@ -269,6 +269,20 @@ def Fn.eval : Fn → VFun Rat
   | .pa => paF
   | .byIdMd => fun v id md =>
       let k : Nat := id.length + (match md with | none => 0 | some m => 1 + m.length)
+      v.map (· * (k : Rat))
+  | .byMdKey key => fun v _ md =>
+      -- `md[key]`: an entry answers None for a key it does not hold; None and "no metadata" scale by 1,
+      -- an integer by itself, any other value by 2
+      let k : Rat := match md with
+        | none => 1
+        | some m => match m.lookup key with
+          | none => 1
+          | some txt => match txt.toInt? with
+            | some n => (n : Rat)
+            | none => if txt == "null" then 1 else 2
+      v.map (· * k)
+  | .byIdChar => fun v id _ =>
+      let k : Nat := id.front.toNat % 3 + 1
       v.map (· * (k : Rat))
   | .table rows => fun v id _ =>
       match rows.find? (fun r => r.1 == id && r.2.1 == v) with
@@ -298,6 +312,8 @@ def asFn (j : Json) : R Fn := do
   | "norm" => pure .norm
   | "pa" => pure .pa
   | "byIdMd" => pure .byIdMd
+  | "byMdKey" => pure (.byMdKey (← strF j "key"))
+  | "byIdChar" => pure .byIdChar
   | "table" =>
     let rows ← listF (fun r => do
       pure ((← strF r "id"), (← listF asRat r "args"), (← listF asRat r "ret"))) j "rows"
